@@ -76,3 +76,54 @@ def answer_sites(model):
             if isinstance(n, ast.Call) and A.call_name(n) == "self._generate_answer":
                 out.append((f, n))
     return out
+
+
+def received_messages_reach_dispatch(ctx, rule: str, answers: bool = True, requests: bool = True):
+    """Node._receive_message: what happens to a received message before the dispatch by command.
+
+    answers:  no path leaves the function before the dispatch for a message that is not a request.
+              The handlers behind the dispatch (receive_cea / receive_dwa / receive_dpa /
+              _receive_app_answer) are where a CEA completes or ends the handshake, a DWA returns
+              the connection to ready, a DPA lets the connection close, a blocked sender gets its
+              answer: an answer filtered out earlier (by a validation, by a side channel for error
+              answers) makes the node wait for a message it has already received.
+    requests: a path that leaves before the dispatch for a request has sent an answer (the
+              duplicate rejection, the 5005): a request is never dropped silently.
+    """
+    R = RecvModel(ctx)
+    g = R.g
+    ctx.rule(rule, "every received message reaches the dispatch by command of _receive_message; "
+                   "only requests leave earlier, and only answered", floor=int(answers) + int(requests))
+    if not R.match_stmts or not R.dispatch:
+        raise AnalysisError("_receive_message: dispatch not found")
+    m = R.match_stmts[0]
+    inside = {id(x) for x in ast.walk(m) if isinstance(x, (ast.stmt, ast.expr, ast.match_case, ast.pattern))}
+    subj = [n for n in g.nodes if n.ast is not None and any(
+        id(x) in inside for x in ast.walk(n.ast) if isinstance(x, (ast.stmt, ast.expr, ast.match_case, ast.pattern)))]
+    if not subj:
+        raise AnalysisError("_receive_message: no CFG node of the dispatch statement")
+    pre = g.reach([g.entry], blocked=subj)
+    rets = [n for n in pre if n.kind == "stmt" and isinstance(n.ast, ast.Return)]
+    for kind, on in (("answer", answers), ("request", requests)):
+        if on:
+            ctx.inst(f"_receive_message:{kind}-reaches-dispatch", rule=rule,
+                     sample=[g.loc(n) for n in rets])
+    for n in rets:
+        facts = R.facts(n)
+        is_req = R.is_request_fact(facts, True)
+        if answers and not is_req:
+            ctx.fail("_receive_message:answer-reaches-dispatch", g.loc(n),
+                     f"`return` before the dispatch on a path that a received answer can take "
+                     f"(guards: {sorted(map(str, facts))[:4]}): the CEA / DWA / DPA / application "
+                     f"answer is consumed without its handler - the handshake never completes or "
+                     f"fails, the watchdog state is not reset, the disconnect waits for its time-out, "
+                     f"the sender of the request waits for ever", rule=rule,
+                     expected="every exit before the dispatch is guarded by msg.header.is_request",
+                     observed="an exit an answer can reach")
+        if requests and (is_req or not answers):
+            if not g.dominated(n, R.sends):
+                ctx.fail("_receive_message:request-reaches-dispatch", g.loc(n),
+                         f"`return` before the dispatch on a path of a received request on which "
+                         f"nothing has been sent: the request is neither handed on nor answered",
+                         rule=rule, expected="an answer sent (send_message) before leaving",
+                         observed="a silent exit")
